@@ -192,6 +192,182 @@ theorem C29_no_invention (P : Params) (s s' : State) (a : Action) (hns : a ≠ .
 
 /-! ### "once compaction finishes each sample is served exactly once" -/
 
+/-- two blocks share no sample -/
+def Disjoint (a b : Blk) : Prop := ∀ x, x ∈ a.sources → x ∈ b.sources → False
+
+/-- the source sets of the bucket form a laminar family: any two blocks are nested or disjoint;
+    every sample was shipped before -/
+structure Lam (s : State) : Prop where
+  src_lt  : ∀ b ∈ s.blocks, ∀ x ∈ b.sources, x < s.nextId
+  laminar : ∀ a ∈ s.blocks, ∀ b ∈ s.blocks, covers a b = true ∨ covers b a = true ∨ Disjoint a b
+
+/-- a block of the compactor's view is not strictly contained in any block of the bucket -/
+theorem view_maximal (P : Params) (s : State) (hi : Inv P s) (m e : Blk)
+    (hm : m ∈ compactorView P s) (he : e ∈ s.blocks) (hc : covers e m = true) : covers m e = true := by
+  obtain ⟨⟨hmb, _⟩, hmh⟩ := (mem_filterChain _ _ _ _ _).mp hm
+  obtain ⟨u, hu, hul, huc⟩ := live_cover P s hi e he
+  have huV : u ∈ markView (P.deleteDelay / P.divisor) s.now s.blocks := by
+    simp [markView, List.mem_filter, hu, markOk, hul]
+  have hum : covers u m = true := covers_trans huc hc
+  have hnb : beats P.levelTie u m = false := by
+    cases hb : beats P.levelTie u m with
+    | false => rfl
+    | true =>
+      have : hiddenIn P.levelTie (markView (P.deleteDelay / P.divisor) s.now s.blocks) m = true :=
+        (hiddenIn_iff _ _ _).mpr ⟨u, huV, hb, hum⟩
+      simp [this] at hmh
+  have hmu := covers_back_of_unbeaten (nodup_of_sorted (hi.src_sorted u hu)) (nodup_of_sorted (hi.src_sorted m hmb)) hum hnb
+  exact covers_trans hmu huc
+
+theorem lam_of_map (s : State) (f : Blk → Blk) (hf : ∀ b, (f b).sources = b.sources) (hl : Lam s) :
+    Lam { s with blocks := s.blocks.map f } := by
+  have hcov : ∀ a b, covers (f a) (f b) = covers a b := by intro a b; simp [covers, hf]
+  refine ⟨?_, ?_⟩
+  · intro b hb x hx
+    obtain ⟨c, hc, rfl⟩ := List.mem_map.mp hb
+    exact hl.src_lt c hc x (hf c ▸ hx)
+  · intro a ha b hb
+    obtain ⟨a', ha', rfl⟩ := List.mem_map.mp ha
+    obtain ⟨b', hb', rfl⟩ := List.mem_map.mp hb
+    rcases hl.laminar a' ha' b' hb' with h | h | h
+    · exact Or.inl (by rw [hcov]; exact h)
+    · exact Or.inr (Or.inl (by rw [hcov]; exact h))
+    · refine Or.inr (Or.inr ?_)
+      intro x hx1 hx2
+      exact h x (hf a' ▸ hx1) (hf b' ▸ hx2)
+
+theorem lam_of_sublist (s : State) (bs : List Blk) (hsub : bs.Sublist s.blocks) (hl : Lam s) :
+    Lam { s with blocks := bs } :=
+  ⟨fun b hb => hl.src_lt b (hsub.subset hb), fun a ha b hb => hl.laminar a (hsub.subset ha) b (hsub.subset hb)⟩
+
+/-- adding a block that is, for every old block, a superset of it or disjoint from it -/
+theorem lam_add (s : State) (nb : Blk) (hl : Lam s) (hlt : ∀ x ∈ nb.sources, x < s.nextId + 1)
+    (hrel : ∀ e ∈ s.blocks, covers nb e = true ∨ Disjoint nb e) :
+    Lam { s with blocks := s.blocks ++ [nb], nextId := s.nextId + 1 } := by
+  refine ⟨?_, ?_⟩
+  · intro b hb x hx
+    rcases List.mem_append.mp hb with hb | hb
+    · have := hl.src_lt b hb x hx; simp only; omega
+    · simp at hb; subst hb; exact hlt x hx
+  · intro a ha b hb
+    rcases List.mem_append.mp ha with ha1 | ha1 <;> rcases List.mem_append.mp hb with hb1 | hb1
+    · exact hl.laminar a ha1 b hb1
+    · have hbe : b = nb := by simpa using hb1
+      rw [hbe]
+      rcases hrel a ha1 with h | h
+      · exact Or.inr (Or.inl h)
+      · exact Or.inr (Or.inr (fun x h1 h2 => h x h2 h1))
+    · have hae : a = nb := by simpa using ha1
+      rw [hae]
+      rcases hrel b hb1 with h | h
+      · exact Or.inl h
+      · exact Or.inr (Or.inr h)
+    · have hae : a = nb := by simpa using ha1
+      have hbe : b = nb := by simpa using hb1
+      rw [hae, hbe]
+      exact Or.inl (covers_refl _)
+
+theorem step_lam (P : Params) (s s' : State) (a : Action) (hi : Inv P s) (hl : Lam s)
+    (h : step P s a = some s') : Lam s' := by
+  have markCase : ∀ i t, Lam { s with blocks := setMark i t s.blocks } := by
+    intro i t
+    exact lam_of_map s _ (by intro b; split <;> rfl) hl
+  cases a with
+  | ship =>
+    simp only [step, Option.some.injEq] at h
+    subst h
+    refine lam_add s _ hl (by simp) ?_
+    intro e he
+    right
+    intro x hx hxe
+    simp at hx
+    subst hx
+    have := hl.src_lt e he _ hxe
+    omega
+  | compact ids =>
+    simp only [step] at h
+    split at h
+    · simp at h
+    · simp at h
+    · rename_i plan _ hplan
+      simp only [Option.some.injEq] at h
+      subst h
+      have hnd : ids.Nodup := by
+        by_cases hc : ids.Nodup
+        · exact hc
+        · simp [hc] at hplan
+      simp only [hnd, if_true] at hplan
+      have hpv : ∀ p ∈ plan, p ∈ compactorView P s := mapM_find_mem hplan
+      have hpb : ∀ p ∈ plan, p ∈ s.blocks := fun p hp => ((mem_filterChain _ _ _ _ _).mp (hpv p hp)).1.1
+      refine lam_add s _ hl ?_ ?_
+      · intro x hx
+        simp only [mem_foldl_union, List.not_mem_nil, false_or] at hx
+        obtain ⟨p, hp, hxp⟩ := hx
+        have := hl.src_lt p (hpb p hp) x hxp
+        omega
+      · intro e he
+        by_cases hex : ∃ m ∈ plan, covers m e = true
+        · obtain ⟨m, hm, hme⟩ := hex
+          left
+          rw [covers_iff] at hme ⊢
+          intro x hx
+          simp only [mem_foldl_union, List.not_mem_nil, false_or]
+          exact ⟨m, hm, hme x hx⟩
+        · right
+          intro x hx hxe
+          simp only [mem_foldl_union, List.not_mem_nil, false_or] at hx
+          obtain ⟨m, hm, hxm⟩ := hx
+          rcases hl.laminar m (hpb m hm) e he with h1 | h1 | h1
+          · exact hex ⟨m, hm, h1⟩
+          · exact hex ⟨m, hm, view_maximal P s hi m e (hpv m hm) he h1⟩
+          · exact h1 x hxm hxe
+  | markSource b0 r =>
+    simp only [step] at h
+    split at h
+    · split at h
+      · simp only [Option.some.injEq] at h; subst h; exact markCase _ _
+      · simp at h
+    · simp at h
+  | gc b0 =>
+    simp only [step] at h
+    split at h
+    · split at h
+      · simp only [Option.some.injEq] at h; subst h; exact markCase _ _
+      · simp at h
+    · simp at h
+  | clean b0 =>
+    simp only [step] at h
+    split at h
+    · split at h
+      · split at h
+        · simp only [Option.some.injEq] at h
+          subst h
+          exact lam_of_sublist s _ List.filter_sublist hl
+        · simp at h
+      · simp at h
+    · simp at h
+  | sync g =>
+    simp only [step] at h
+    split at h
+    · simp only [Option.some.injEq] at h; subst h; exact ⟨hl.src_lt, hl.laminar⟩
+    · simp at h
+  | tick d =>
+    simp only [step] at h
+    split at h
+    · simp only [Option.some.injEq] at h; subst h; exact ⟨hl.src_lt, hl.laminar⟩
+    · simp at h
+
+theorem run_lam (P : Params) (hT : P.levelTie = true) : ∀ (acts : List Action) (s s' : State),
+    s.gws = [] → Inv P s → Lam s → run P s acts = some s' → Lam s'
+  | [], s, s', _, _, hl, h => by simp [run] at h; subst h; exact hl
+  | a :: as, s, s', hn, hi, hl, h => by
+    simp only [run] at h
+    split at h
+    · rename_i s1 hs1
+      exact run_lam P hT as s1 s' (step_gws_nil P s s1 a hn hs1)
+        (step_inv P s s1 (Or.inr hn) hT a hi hs1) (step_lam P s s1 a hi hl hs1) h
+    · simp at h
+
 /-- nothing left to do for garbage collection and cleaning: no block is marked, none is hidden -/
 def Quiescent (P : Params) (s : State) : Prop :=
   (∀ b ∈ s.blocks, b.mark = none) ∧ duplicates P.levelTie (P.deleteDelay / P.divisor) s.now s.blocks = []
@@ -203,6 +379,52 @@ def C29_once_full : Prop :=
     run (compactorOnly deleteDelay) (init 0) acts = some s → Quiescent (compactorOnly deleteDelay) s →
     ∀ a ∈ filterChain true ignoreDelay s.now s.blocks, ∀ b ∈ filterChain true ignoreDelay s.now s.blocks,
       ∀ x, x ∈ a.sources → x ∈ b.sources → a = b
+
+/-- C29, "once compaction finishes each sample is served exactly once": when nothing is marked
+    and nothing is hidden any more, the blocks a gateway shows are pairwise disjoint. -/
+theorem C29_once : C29_once_full := by
+  intro dd ig acts s hrun hq a ha b hb x hxa hxb
+  have hi := C29_inv dd acts s hrun
+  have hl : Lam s := run_lam _ rfl acts (init 0) s rfl (init_inv _ 0) ⟨by simp [init], by simp [init]⟩ hrun
+  have hab : a ∈ s.blocks := ((mem_filterChain _ _ _ _ _).mp ha).1.1
+  have hbb : b ∈ s.blocks := ((mem_filterChain _ _ _ _ _).mp hb).1.1
+  -- nothing is hidden in the compactor's view, which is the whole bucket
+  have hnh : ∀ c ∈ s.blocks, ∀ u ∈ s.blocks, ¬ (beats true u c = true ∧ covers u c = true) := by
+    intro c hc u hu hbc
+    have hV : ∀ k ∈ s.blocks, k ∈ markView ((compactorOnly dd).deleteDelay / (compactorOnly dd).divisor) s.now s.blocks := by
+      intro k hk
+      simp [markView, List.mem_filter, hk, markOk, hq.1 k hk]
+    have : c ∈ duplicates (compactorOnly dd).levelTie ((compactorOnly dd).deleteDelay / (compactorOnly dd).divisor) s.now s.blocks := by
+      refine (mem_duplicates _ _ _ _ _).mpr ⟨⟨hc, by simp [markOk, hq.1 c hc]⟩, ?_⟩
+      exact (hiddenIn_iff _ _ _).mpr ⟨u, hV u hu, hbc.1, hbc.2⟩
+    rw [hq.2] at this
+    simp at this
+  by_cases hid : a.id = b.id
+  · exact eq_of_id_eq hi.ids_nodup hab hbb hid
+  · exfalso
+    have nested : ∀ (p q : Blk), p ∈ s.blocks → q ∈ s.blocks → p.id ≠ q.id → covers p q = true → False := by
+      intro p q hp hqm hpq hc
+      have hnb : beats true p q = false := by
+        cases hbq : beats true p q with
+        | false => rfl
+        | true => exact absurd ⟨hbq, hc⟩ (hnh q hqm p hp)
+      have hback := covers_back_of_unbeaten (nodup_of_sorted (hi.src_sorted p hp)) (nodup_of_sorted (hi.src_sorted q hqm)) hc hnb
+      have hlen : p.sources.length = q.sources.length := by
+        have h1 := length_le_of_nodup_subset (nodup_of_sorted (hi.src_sorted q hqm)) (fun x hx => (covers_iff p q).mp hc x hx)
+        have h2 := length_le_of_nodup_subset (nodup_of_sorted (hi.src_sorted p hp)) (fun x hx => (covers_iff q p).mp hback x hx)
+        omega
+      rcases beats_total hpq hlen with h1 | h1
+      · exact hnh q hqm p hp ⟨h1, hc⟩
+      · exact hnh p hp q hqm ⟨h1, hback⟩
+    rcases hl.laminar a hab b hbb with h | h | h
+    · exact nested a b hab hbb hid h
+    · exact nested b a hbb hab (fun h' => hid h'.symm) h
+    · exact h x hxa hxb
+
+/-- non-vacuity of `C29_once`: the run below ends quiescent with two disjoint blocks -/
+example : (run (compactorOnly 100) (init 0)
+    [.ship, .ship, .ship, .compact [1, 2], .markSource 1 4, .gc 2, .tick 101, .clean 1, .clean 2]).map
+      (fun s => decide (∀ b ∈ s.blocks, b.mark = none) && (duplicates true 50 s.now s.blocks).isEmpty) = some true := by decide
 
 /-! non-vacuity: a crash between upload and marking, a restart that garbage-collects, cleaning -/
 example : (run (compactorOnly 100) (init 0)
